@@ -164,7 +164,25 @@ pub fn gen(seed: u64, n: usize, _tier: &str) -> Vec<Case> {
         cases.push(Case { id: format!("blk-{}", id), ops, outs: vec![] });
     }
     cases.extend(gen_exec_atomic());
+    cases.push(gen_overtake());
     cases
+}
+
+/// the witness of the open class stolen-wakeup-overtakes (Props/C13.v c13_fifo_overtake_refuted): client 2
+/// blocks on r, then client 1 on q and r; one batch pushes to q, pops q and pushes y to r; client 1's wake-up
+/// finds q empty, looks at its other key and takes y although client 2 blocked on r first.  Model and
+/// implementation agree on it; the judge names the class.
+pub fn gen_overtake() -> Case {
+    let bl = |keys: &[&[u8]]| -> V { let mut a: Vec<Vec<u8>> = vec![b"BLPOP".to_vec()]; for k in keys { a.push(k.to_vec()); } a.push(b"0".to_vec()); cmdo(&a) };
+    let mut ops: Vec<Vec<Tok>> = vec![conn_op(OBS), bconn_op(1), bconn_op(2), bconn_op(3)];
+    ops.push(bsend_op(2, &[bl(&[b"r"])]));
+    ops.push(bsend_op(1, &[bl(&[b"q", b"r"])]));
+    ops.push(vec![b("BDUMP"), i(0)]);
+    ops.push(bsend_op(3, &[cmdv(&[b"RPUSH", b"q", b"x"]), cmdv(&[b"LPOP", b"q"]), cmdv(&[b"RPUSH", b"r", b"y"])]));
+    ops.push(brecv_op(3)); ops.push(brecv_op(1)); ops.push(brecv_op(2));
+    ops.push(vec![b("BDUMP"), i(0)]);
+    ops.push(cmd_op(OBS, &[b"LRANGE", b"r", b"0", b"-1"]));
+    Case { id: "overtake-0".into(), ops, outs: vec![] }
 }
 
 /// EXEC is one step for the clients that wait on its keys too (C07): with one or two clients blocked on
